@@ -372,6 +372,20 @@ class ImplRunner:
             res = 'exc %s' % type(e).__name__
         self.finish(i, line, res)
 
+    def do_paramset(self, op):
+        """params.set(key, value) on the LIVE layer (documented; no load_params() afterwards).  Judge-only scenarios."""
+        i = op['i']
+        line = 'paramset %d %s %s' % (i, op['key'], pv(op['value']))
+        if i not in self.layers:
+            self.plain(line, 'bad-layer')
+            return
+        try:
+            self.layers[i].params.set(op['key'], op['value'])
+            res = 'ok'
+        except Exception as e:
+            res = 'exc %s' % type(e).__name__
+        self.finish(i, line, res)
+
     def do_set_address(self, op):
         i = op['i']
         a = op['addr']
